@@ -221,6 +221,16 @@ Example file_level_example :
   forallb (fun e => negb (le_live e)) (f_orph st) = true /\ map (fun e => length (concat (pconcat e))) (f_orph st) = [3; 2].
 Proof. vm_compute. repeat split; reflexivity. Qed.
 
+(* Asynchronous replay (machine astate of Model.v): replay steps interleaved in ANY way with new write requests. The ordering
+   rule that makes it correct - replayed records are kept below the writes acknowledged since the restart (a table of their
+   own, read under the active one and flushed before it): at every moment a read shows the last-write-wins state of data
+   files ++ the records re-applied so far ++ the new writes, as if the re-applied part of the log had come first. Today's
+   single table is refuted in Refuted.v (finding C01-asyncreplay). *)
+Theorem C01_async_two_tables_exact : forall (files log : list batch) (ops : list aop) (k : key),
+  a_read false (arun files log ops) k = lww (files ++ a_done (arun files log ops) ++ a_new (arun files log ops)) k.
+Proof. exact async_two_tables_exact. Qed.
+Print Assumptions C01_async_two_tables_exact.
+
 (* re-applying in order a part of the history that is already in the data files changes nothing (replay of a log
    whose prefix is flushed) *)
 Theorem replay_idempotent : forall (a b c : list batch) (k : key),
